@@ -14,6 +14,7 @@
 -/
 import PyModeS.Tie.Basic
 import PyModeS.Tie.Common
+import PyModeS.Tie.Icao
 import PyModeS.Generated.Src.adsb
 import PyModeS.Proofs.Fields.Frame
 import Mathlib.Tactic.SplitIfs
